@@ -209,7 +209,7 @@ Section Model.
     pyfloat : string -> option T;        (* datacard.to_float(tok) (float(), then the Fortran
                                             spellings 1.5d3, 1.5+3); None = ValueError *)
     pytrunc : string -> option Z;        (* int(float(tok)): plain float() *)
-    pyround : string -> option Z;        (* round(to_float(tok)) *)
+    tround : T -> Z;                     (* round(x) of a float (ties to even) *)
     pytotrunc : string -> option Z;      (* int(to_float(tok)) *)
     trtab : Z -> option (list T);        (* self.transforms[n][:12]; None = KeyError *)
     normtr : list T -> res (list T);     (* normalize_transform *)
@@ -219,7 +219,7 @@ Section Model.
     latopt : Z -> option (list (Z * Z))  (* --lattice option by cell *)
   }.
 
-  Inductive funiv := FInt (u : Z) | FList (l : list Z).
+  Inductive funiv := FInt (u : Z) | FList (l : list (option Z)).   (* None = a J jump *)
 
   (* the defaultdict of parse_keywords *)
   Record kws := mkKws {
@@ -299,35 +299,86 @@ Section Model.
   Definition bounds_size (b : list (Z * Z)) : Z :=
     fold_left (fun acc p => (acc * (snd p - fst p + 1))%Z) b 1%Z.
 
-  (* expand_data_card(tokens, expected=n, dtype='int'), restricted to plain
-     numbers and the nR / R repetition; I, M, J, LOG are outside the model.
-     [acc] is the result so far, reversed. *)
-  Definition ends_unsupported (t : string) : bool :=
-    match last_char t with
-    | Some c => Ascii.eqb c "i" || Ascii.eqb c "m" || Ascii.eqb c "j" || Ascii.eqb c "g"
-    | None => false
-    end.
+  (* expand_data_card(tokens, expected=n, dtype='int'): numbers, nR / R
+     (repeat), nI / I (linear interpolation up to the next token), xM
+     (multiply), nJ / J (jump: None); LOG / ILOG are outside the model
+     (EUnsupported: they need a float power).  [acc] is the result so far,
+     reversed (head = result[-1]); the rounding is done at the end.  Only
+     ValueError is caught by parse_fill_kw (EParse); IndexError (EIndex) and
+     TypeError / ZeroDivisionError (EOther) go through. *)
+  Definition count_tok (t : string) : option Z :=
+    match t with String _ EmptyString => Some 1%Z | _ => pyint (drop_last 1 t) end.
 
-  Fixpoint expand_ints (e : env) (expected : nat) (toks : list string) (acc : list Z)
-    : res (list Z * list string) :=
-    let finish := if Nat.eqb (List.length acc) expected then Ok (rev acc, toks)
+  Definition last_is (c : ascii) (t : string) : bool :=
+    match last_char t with Some d => Ascii.eqb c d | None => false end.
+
+  Definition zrange (n : Z) : list Z := map (fun i => Z.of_nat i) (seq 1 (Z.to_nat n)).
+
+  Fixpoint expand_ints (e : env) (expected : nat) (toks : list string) (acc : list (option T))
+    : res (list (option Z) * list string) :=
+    let finish := if Nat.eqb (List.length acc) expected
+                  then Ok (map (option_map (tround e)) (rev acc), toks)
                   else Err EParse in
     if Nat.leb expected (List.length acc) then finish else
     match toks with
     | [] => finish
     | t :: r =>
-        if match last_char t with Some c => Ascii.eqb c "r" | None => false end then
-          match (match t with String _ EmptyString => Some 1%Z | _ => pyint (drop_last 1 t) end) with
+        if last_is "r" t then
+          match count_tok t with
           | None => Err EParse
           | Some n => match acc with
                       | [] => Err EIndex
                       | x :: _ => expand_ints e expected r (repeat x (Z.to_nat n) ++ acc)%list
                       end
           end
-        else if ends_unsupported t then Err EUnsupported
-        else match pyround e t with
+        else if last_is "i" t then
+          match acc with
+          | [] => Err EIndex
+          | lo :: _ =>
+              match r with
+              | [] => Err EIndex
+              | up :: r' =>
+                  match pyfloat e up with
+                  | None => Err EParse
+                  | Some u =>
+                      match lo with
+                      | None => Err EOther
+                      | Some l =>
+                          match count_tok t with
+                          | None => Err EParse
+                          | Some n =>
+                              if (n + 1 =? 0)%Z then Err EOther else
+                              let step := sdiv SC (ssub SC u l) (sofZ SC (n + 1)) in
+                              let vals := (map (fun i => Some (sadd SC l (smul SC (sofZ SC i) step)))
+                                               (zrange n) ++ [Some u])%list in
+                              expand_ints e expected r' (rev vals ++ acc)%list
+                          end
+                      end
+                  end
+              end
+          end
+        else if last_is "m" t then
+          match t with
+          | String _ EmptyString => Err EParse
+          | _ =>
+              match pyfloat e (drop_last 1 t) with
+              | None => Err EParse
+              | Some f => match acc with
+                          | [] => Err EIndex
+                          | None :: _ => Err EOther
+                          | Some v :: _ => expand_ints e expected r (Some (smul SC v f) :: acc)
+                          end
+              end
+          end
+        else if last_is "j" t then
+          match count_tok t with
+          | None => Err EParse
+          | Some n => expand_ints e expected r (repeat None (Z.to_nat n) ++ acc)%list
+          end
+        else if String.eqb (take_last 3 t) "log" then Err EUnsupported
+        else match pyfloat e t with
              | None => Err EParse
-             | Some z => expand_ints e expected r (z :: acc)
+             | Some x => expand_ints e expected r (Some x :: acc)
              end
     end.
 
@@ -448,7 +499,7 @@ Section Model.
     parse_from (List.length toks) e kempty toks.
 
   (* ---- parse_one_cell_worker ---- *)
-  Inductive fillid := FillU (u : Z) | FillLat (b : list (Z * Z)) (us : list Z).
+  Inductive fillid := FillU (u : Z) | FillLat (b : list (Z * Z)) (us : list (option Z)).
 
   Record cell := mkCell {
     c_mat : string;
@@ -487,7 +538,7 @@ Section Model.
                 match lat_opt with
                 | None => Err EMissingLat
                 | Some b => if (bounds_size b <? 0)%Z then Err EValue
-                            else Ok (Some (FillLat b (repeat u (Z.to_nat (bounds_size b)))))
+                            else Ok (Some (FillLat b (repeat (Some u) (Z.to_nat (bounds_size b)))))
                 end
             | Some (FList us) => match fb with
                                  | Some b => Ok (Some (FillLat b us))
